@@ -222,6 +222,63 @@ def run(repo):
                                  'variables only -- their realisations, supports and (after a later adapt()) the '
                                  'partition itself can differ, so every scenario must be expanded / evaluated'
                                  % (fi.fq, ntext(n)[:60]), repo.where(fi, n), {'props': ['C12', 'C13', 'C03']}))
+    # ---------------------------------------------------------------- (g) no under-keyed memo on the model
+    # `if k not in self.cache: self.cache[k] = v` in the compile path is only sound when k determines v.  A value
+    # computed from the constraint being compiled (a parameter of the function) under a key that is only the scenario
+    # index hands the first constraint's support / rule to every later constraint of that scenario.
+    for fi in repo.all_functions():
+        if fi.module not in SCAN or fi.cls is None:
+            continue
+        params = set(fi.params[1:]) | set(fi.kwonly)
+        if not params:
+            continue
+        assigns_all = {}
+        for n in walk_no_nested(fi.node):
+            if isinstance(n, ast.Assign):
+                for t in n.targets:
+                    for x in ast.walk(t):
+                        if isinstance(x, ast.Name) and isinstance(x.ctx, ast.Store):
+                            assigns_all.setdefault(x.id, []).append(n.value)
+            elif isinstance(n, (ast.For, ast.comprehension)):
+                for x in ast.walk(n.target):
+                    if isinstance(x, ast.Name):
+                        assigns_all.setdefault(x.id, []).append(n.iter)
+
+        def deps(e, seen=None, depth=0):
+            seen = seen if seen is not None else set()
+            out = set()
+            for x in ast.walk(e):
+                if isinstance(x, ast.Name) and x.id not in seen:
+                    seen.add(x.id)
+                    out.add(x.id)
+                    if depth < 6:
+                        for v in assigns_all.get(x.id, []):
+                            out |= deps(v, seen, depth + 1)
+            return out
+        for n in walk_no_nested(fi.node):
+            if not (isinstance(n, ast.If) and isinstance(n.test, ast.Compare) and len(n.test.ops) == 1 and
+                    isinstance(n.test.ops[0], (ast.In, ast.NotIn)) and
+                    isinstance(n.test.comparators[0], ast.Attribute) and ntext(n.test.comparators[0]).startswith('self.')):
+                continue
+            cont = ntext(n.test.comparators[0])
+            key = n.test.left
+            body = n.body if isinstance(n.test.ops[0], ast.NotIn) else n.orelse
+            for st_ in ast.walk(ast.Module(body=body, type_ignores=[])):
+                if isinstance(st_, ast.Assign) and isinstance(st_.targets[0], ast.Subscript) and \
+                        ntext(st_.targets[0].value) == cont and ntext(st_.targets[0].slice) == ntext(key):
+                    vdeps, kdeps = deps(st_.value), deps(key)
+                    extra = sorted((vdeps & params) - kdeps)
+                    ok = not extra
+                    res.functions.add(fi.fq)
+                    res.inst({'function': fi.fq, 'memo': ntext(st_)[:60], 'key': ntext(key), 'value_also_depends_on': extra,
+                              'ok': ok}, ok)
+                    if not ok:
+                        res.fail(Finding(RULE, fi.fq, 'under-keyed memo: ' + ntext(st_)[:50],
+                                         '%s caches `%s` in %s under the key `%s`, but the cached value is computed from '
+                                         'the parameter(s) %s of the call: a later call with another constraint / set '
+                                         'and the same key gets the first one\'s value'
+                                         % (fi.fq, ntext(st_.value)[:40], cont, ntext(key), extra), repo.where(fi, st_),
+                                         {'props': ['C03', 'C01', 'C13', 'C12']}))
     # ---------------------------------------------------------------- (b)
     n_calls = 0
     for fi in repo.all_functions():
